@@ -1037,3 +1037,14 @@ func (r *RefFS) TreeSig() string {
 	rec("/", r.root)
 	return sb.String()
 }
+
+// DurableData returns what a crash right now would leave of the regular file at p.
+func (r *RefFS) DurableData(p string) ([]byte, bool) {
+	r.mu.Lock()
+	defer r.mu.Unlock()
+	n, _, _, _, e := r.resolve(p, false)
+	if e != 0 || n.kind != kFile {
+		return nil, false
+	}
+	return append([]byte(nil), n.durable...), true
+}
